@@ -227,6 +227,16 @@ def addressFields (a : Addr) (size : Nat) : R Bytes := do
   let p ← packInt .usint (.int a.posNumber)
   .ok (s ++ f ++ [UInt8.ofNat (typeCode a.fileType)] ++ e ++ p)
 
+/-- `_write_tag`: the sub-element byte of a write request is the I/O position, except for the preset / accumulator of a
+    timer or counter, which are words 1 and 2 of the element (word 0 holds the status bits) -/
+def writeSub (a : Addr) : Nat :=
+  if (a.fileType = nm "T" ∨ a.fileType = nm "C") ∧
+     (a.subElement = (lookup (nm "PRE") Gen.pcccCT).getD 1 ∨ a.subElement = (lookup (nm "ACC") Gen.pcccCT).getD 2)
+  then a.subElement else a.posNumber
+
+/-- the address fields of a write request -/
+def writeAddressFields (a : Addr) (size : Nat) : R Bytes := addressFields { a with posNumber := writeSub a } size
+
 /-- element codec of a file type: INT (N,B,T,C,S,O,I), REAL (F), DINT (L) -/
 def elemTy (ft : Name) : Option Ty :=
   match lookup ft (Gen.pcccCodec.map fun p => (p.1, if p.2 = nm "INT" then 1 else if p.2 = nm "REAL" then 2 else if p.2 = nm "DINT" then 3 else 0)) with
